@@ -104,6 +104,9 @@ type inSend struct {
 	Kind    string `json:"kind"` // create | update | delete
 	Key     string `json:"key"`
 	Payload []byte `json:"payload,omitempty"` // format byte + body
+	// TTL: the consumer's interface stamps a relative expiry (an hour) on what it writes: a live record whose metadata
+	// carries a negative "deleted" value; subscribers are told of a new / updated record all the same
+	TTL bool `json:"ttl,omitempty"`
 }
 
 type dbCase struct {
